@@ -148,9 +148,17 @@ fn consolidate_pass_lines(
             continue;
         }
 
-        line.parent = line.parent.map(|parent| LineParent {
-            line_index: mapped_line_indices[parent.line_index],
-            global_token_index: parent.global_token_index,
+        // A parent must be an earlier, non-empty line. Invalid code can produce a line that
+        // names itself (or a line that was dropped) as its parent; such a reference is discarded
+        // rather than indexing out of bounds here or sending later stages around a cycle.
+        line.parent = line.parent.and_then(|parent| {
+            mapped_line_indices
+                .get(parent.line_index)
+                .filter(|&&line_index| line_index != usize::MAX)
+                .map(|&line_index| LineParent {
+                    line_index,
+                    global_token_index: parent.global_token_index,
+                })
         });
 
         let new_line_index = result_lines.len();
